@@ -317,6 +317,18 @@ def _minmax(R, rid):
                     "MIN / MAX fold through Value::modify_same_type_numeric_nullable, whose catch-all arm silently ignores TEXT, BOOLEAN, TIMESTAMP "
                     "and array values: the first value seen is kept (wrong result, and dependent on line order)", [ua.loc(tgt[0])])
         return
+    conv = [("%s->%s" % (st["rv"]["from"], st["rv"]["to"]), st["line"]) for i, st in ua.stmts()
+            if i in reg and st["rv"]["k"] == "cast" and st["rv"]["ck"] in ("IntToFloat", "FloatToInt")]
+    fcmp = [c for c in ua.calls if c.bb in reg and re.search(r"^core::f64::<impl f64>::(partial_cmp|total_cmp|max|min)$|"
+                                                              r"<f64 as core::cmp::PartialOrd>::(partial_cmp|lt|gt|le|ge)$", short(c.name))]
+    fops = [st for i, st in ua.stmts() if i in reg and st["rv"]["k"] == "binop" and st["rv"]["op"] in ("Lt", "Le", "Gt", "Ge")
+            and st["rv"].get("lty") in ("f64", "f32")]
+    if conv or fcmp or fops:
+        what = ("the cast %s at line %d" % conv[0]) if conv else (short(fcmp[0].name) if fcmp else "an IEEE comparison operator")
+        R.violation(rid, "update_aggregate|numeric-compare",
+                    "MIN / MAX compare through %s instead of Value's total order: NaN compares `equal` to everything (so the result depends on the "
+                    "order of the rows) and INTs above 2^53 collapse" % what, [ua.loc(tgt[0])])
+        return
     lt = [c for c in ua.calls if c.bb in reg and re.search(r"PartialOrd(<.*>)?( for &A)?>?::(lt|gt|le|ge|partial_cmp)$|Ord>?::(cmp|min|max)$", short(c.name))
           and ((c.func.get("res_targs") or c.targs)[:1] == [V] or c.targs[:1] in ([V], ["&" + V]))]
     meths = sorted(set(short(c.name).split("::")[-1] for c in lt))
@@ -479,6 +491,7 @@ def run_c15(R):
         R.violation("C15.containers", "count-distinct", "COUNT(DISTINCT) does not collect into a set of values", [up.loc()])
     _update_state(R)
     _distinct_store(R, "C15.distinct")
+    _no_division_in_update(R, "C15.nodiv")
     R.assume("the algebraic laws themselves (commutativity / associativity of the folds over runtime values) are not decided; only the structural "
              "necessary conditions above are")
 
@@ -678,3 +691,38 @@ def _text_keys(R, rid):
                 R.ok(rid, key, "string key is not a rendering of an expression / value", c.loc(), nontrivial=False)
     if n == 0:
         R.ok(rid, "update-phase", "no string-keyed map in the update phase", entry.loc())
+
+
+def _no_division_in_update(R, rid):
+    """the running state of an aggregate is updated by additions / comparisons / insertions only: integer division or remainder in the
+    update step truncates, and a truncated running state depends on the order in which the values arrive"""
+    P = R.prog
+    R.rule(rid, "GroupAggregator::update (and the helpers it calls) contains no integer division / remainder: quotients are taken once, "
+                "from the complete sums, when the result is produced")
+    up = R.need_fn(AGG + "GroupAggregator::update")
+    fns_ = [up] + [P.fns[k] for k in P.reachable([up]) if P.fns[k].spath.startswith(AGG) and P.fns[k].key != up.key and
+                   not P.fns[k].spath.endswith("GroupAggregator::update_value")]
+    from . import effects as E
+    bad = []
+    for g in fns_:
+        for i, st in g.stmts():
+            if st["rv"]["k"] == "binop" and st["rv"]["op"] in ("Div", "Rem") and st["rv"].get("lty") in \
+                    ("i8", "i16", "i32", "i64", "i128", "isize", "u8", "u16", "u32", "u64", "u128", "usize"):
+                # only a quotient that is written back into the aggregator (its running state) matters; the value published for this
+                # update may be computed from the complete sums by division
+                dl = st["pl"]["l"]
+                sinks = E.taint_sinks(g, lambda pl, dl=dl: pl.get("l") == dl and not pl.get("p"))
+                if any(k_.startswith("store:") for k_, _ in sinks):
+                    bad.append((g, st))
+        for c in g.calls:
+            if re.search(r"<impl (i|u)(8|16|32|64|128|size)>::(checked_div|checked_rem|div_euclid|rem_euclid|wrapping_div|wrapping_rem|"
+                         r"checked_div_euclid|checked_rem_euclid)$", short(c.name)):
+                bad.append((g, {"line": c.line, "rv": {"op": short(c.name).split("::")[-1], "lty": ""}}))
+    if bad:
+        g, st = bad[0]
+        R.violation(rid, "update|%s" % st["rv"]["op"],
+                    "%s updates an aggregate's running state with integer %s (%s): the truncation is applied in arrival order, so the published "
+                    "value depends on the order / split of the input" % (g.path, st["rv"]["op"], st["rv"].get("lty", "")),
+                    ["%s:%d" % (g.file, st["line"])])
+    else:
+        R.ok(rid, "update", "%d function(s) of the update step, no integer division / remainder" % len(fns_), up.loc())
